@@ -345,8 +345,10 @@ func (k *Keyed[K, V]) resetRoutineLocked(key K, conds ...func(K, V) bool) (exist
 	k.routines[key] = v
 	if k.ctx != nil {
 		v.start(k.ctx, prevExitedCh, false)
-	} else {
-		// started later: still has to wait for the previous instance to return
+	}
+	if v.exitedCh == nil {
+		// started later or never (nil routine): whatever runs next for this key still has
+		// to wait for the previous instance to return
 		v.exitedCh = prevExitedCh
 	}
 
